@@ -370,7 +370,7 @@ func mutate(r *rand.Rand, s string) string {
 	nm := 1 + r.Intn(3)
 	for k := 0; k < nm && len(lines) > 0; k++ {
 		i := r.Intn(len(lines))
-		switch r.Intn(12) {
+		switch r.Intn(15) {
 		case 0: // delete
 			lines = append(lines[:i], lines[i+1:]...)
 		case 1: // duplicate
@@ -421,6 +421,25 @@ func mutate(r *rand.Rand, s string) string {
 		case 11: // drop the final EOL
 			last := lines[len(lines)-1]
 			lines[len(lines)-1] = strings.TrimRight(last, "\r\n")
+		case 12: // bracket surgery inside an argument list: tokens with surplus / missing curly brackets
+			for t := 0; t < 8; t++ {
+				j := (i + t) % len(lines)
+				l := strings.TrimRight(lines[j], "\r\n")
+				if op := strings.IndexByte(l, '('); op > 0 && strings.HasSuffix(l, ")") {
+					ins := []string{"}}", "}}}", "}", "{", "{{", "{}", "{}}", "}}{", ", }}", "{0x1}}}", "?}", "_}}"}[r.Intn(12)]
+					pos := len(l) - 1 // before the closing parenthesis
+					if c := strings.IndexByte(l[op:], ','); c > 0 && r.Intn(2) == 0 {
+						pos = op + c // before the first comma
+					}
+					lines[j] = l[:pos] + ins + l[pos:] + lines[j][len(l):]
+					break
+				}
+			}
+		case 13: // the stream ends right after line i, without its EOL
+			lines = lines[:i+1]
+			lines[i] = strings.TrimRight(lines[i], "\r\n")
+		case 14: // a blanks-only line (shorter or longer than any indentation)
+			lines = append(lines[:i], append([]string{[]string{" ", "\t", "  ", "   \t", " \r"}[r.Intn(5)] + "\n"}, lines[i:]...)...)
 		}
 	}
 	return strings.Join(lines, "")
@@ -441,6 +460,7 @@ var lineKinds = []string{
 	"==================", "WARNING: DATA RACE", "Read at 0x00c000010000 by goroutine 7:", "Previous write at 0x00c000010000 by goroutine 6:",
 	"Goroutine 7 (running) created at:", "Goroutine 6 (finished) created at:", "Goroutine 9 (running) created at:",
 	"  main.racy()", "      /a/r.go:33 +0x44", "some junk line", "a.%41%41%41()", "goroutine x [running]:",
+	"main.f(0x1}})", "main.f({0x1, 0x2}}}, 0x3)", "  ", "created by net/http.", "net/http.(*conn)",
 }
 
 // ---- the mixes ----
@@ -588,7 +608,7 @@ func opScan(r *rand.Rand, n int, tier, mix string) {
 			emitScan(id, []byte(txt), nil, genFinal(r), false, "kinds", "-", "-")
 		case "c09": // delivery: short contents x adversarial schedules, long lines
 			var txt string
-			switch r.Intn(4) {
+			switch r.Intn(5) {
 			case 0:
 				txt = printDump(g.dump(1+r.Intn(2), 3), g.variant(), true) + genJunk(r, 2, false, false)
 			case 1:
@@ -606,7 +626,11 @@ func opScan(r *rand.Rand, n int, tier, mix string) {
 				}
 				txt = "pre\n" + printDump(d, dVariant{FileIndent: "\t"}, true) + "post\n"
 			default:
-				txt = genJunk(r, 1+r.Intn(3), false, false) + printRace(g.race()) + genJunk(r, 1+r.Intn(3), false, false)
+				txt = genJunk(r, 1+r.Intn(3), false, false) + printRace(g.race())
+				if r.Intn(3) != 0 {
+					// (otherwise the closing separator is the very end of the stream)
+					txt += genJunk(r, 1+r.Intn(3), false, false)
+				}
 			}
 			emitScan(id, []byte(txt), genSched(r, len(txt)), genFinal(r), nameArgs, "other", "-", "-")
 		}
